@@ -470,6 +470,7 @@ func Run(cfg Cfg, ctx *explore.Ctx) Result {
 	cancel()
 	s.Uninstall()
 	s.Drain()
+	s.WaitGone(5 * time.Second)
 	if os.Getenv("VERIF_SCHED_DEBUG") != "" {
 		fmt.Println("delivered:", del, "maxDL", maxDL, "maxDC", maxDC)
 	}
